@@ -654,7 +654,7 @@ func (g *G) callJob(w *WF, id string) *ye.Node {
 	if g.b("jif") {
 		j.Set("if", tmpl(g.pick("jifv", []string{"github.ref == 'refs/heads/main'", "${{ always() }}", "success()"}), p+".if", p+".if"))
 	}
-	j.Set("uses", tmpl(g.pick("callee", []string{"owner/repo/.github/workflows/build.yml@v1", "octo/shared/.github/workflows/ci.yaml@main"}), p+".uses", ""))
+	j.Set("uses", tmpl(g.pick("callee", []string{"owner/repo/.github/workflows/build.yml@v1", "octo/shared/.github/workflows/ci.yaml@main", "owner/repo/.github/workflows/build.yml@v1", "octo/shared/.github/workflows/${{ format('{0}.yml', 'deploy') }}@v1"}), p+".uses", ""))
 	if g.b("cwith") {
 		wm := umap("with", true)
 		wm.Set("param", tmpl("value", p+".with.<with_id>", p+".with.<with_id>"))
